@@ -17,7 +17,7 @@ import json, os, random, re, time
 import vlib
 
 PID = "C17"
-MC_ACTIONS = {"FailCs": "MFailC", "FailNs": "MFailN", "PruneTs": "MPrune"}
+MC_ACTIONS = {"FailCs": "MFailC", "FailNs": "MFailN", "PruneTs": "MPrune", "RgsSnaps": "MRgs"}
 
 
 def cfg_actions(cfg):
@@ -163,9 +163,10 @@ def run(tier, seed):
     rng = random.Random(seed)
 
     # ---- 1. model checking + behaviour generation
-    cfgs = ["GossipMC.cfg", "GossipMC2.cfg", "GossipMC3.cfg", "GossipMC4.cfg", "GossipMC5.cfg"]
+    cfgs = ["GossipMC.cfg", "GossipMC2.cfg", "GossipMC3.cfg", "GossipMC4.cfg", "GossipMC5.cfg", "GossipMC7.cfg"]
     if thorough:
-        cfgs = ["GossipMC.cfg", "GossipMC2.cfg", "GossipMC3.cfg", "GossipMC4t.cfg", "GossipMC5t.cfg", "GossipMC6.cfg"]
+        cfgs = ["GossipMC.cfg", "GossipMC2.cfg", "GossipMC3.cfg", "GossipMC4t.cfg", "GossipMC5t.cfg", "GossipMC6.cfg",
+                "GossipMC7.cfg"]
     mcs = []
     per_cfg = []
     for cfg in cfgs:
@@ -186,7 +187,7 @@ def run(tier, seed):
         per_cfg.append(got)
         r.pop("out")
         mcs.append((cfg, r))
-    cap = 40000 if thorough else 7000
+    cap = 40000 if thorough else 6000
     share = cap // len(per_cfg)
     scripts = []
     for got in per_cfg:
@@ -204,7 +205,7 @@ def run(tier, seed):
             f.write(json.dumps(s) + "\n")
 
     # ---- 2. run the real code
-    nrand = 12000 if thorough else 1500
+    nrand = 12000 if thorough else 1200
     tpath = os.path.join(wd, "trace.ndjson")
     rpath = os.path.join(wd, "random-scripts.ndjson")
     p = vlib.run_bin(bins["gossip"], ["--scripts", spath, "--random", nrand, "--seed", seed, "--out", tpath,
